@@ -150,9 +150,18 @@ static void run_case(Ctx& c, uint64_t idx) {
     UriGenOpts o; o.maxSegs = 12; o.dotHeavy = r.coin(); o.longSeg = false;
     switch (p.call) {
     case C_PARSE: p.a = r.chance(1, 4) ? mutate(r, valid_uri(r, o), 1) : valid_uri(r, o); break;
-    case C_ADDBASE: { p.b = gen_abs_base(r); size_t e; if (!dfa_uriref(p.b, &e)) p.b = "a://h/p/q"; p.a = valid_uri(r, o); p.flag = (int)r.below(2); p.owned = r.chance(1, 4); } break;
-    case C_REMOVEBASE: { o.scheme = 1; p.a = valid_uri(r, o); p.b = r.coin() ? gen_abs_base(r) : mutate(r, p.a, 1); size_t e; if (!dfa_uriref(p.b, &e)) p.b = p.a; p.flag = (int)r.below(2); p.owned = r.chance(1, 4); } break;
-    case C_NORMALIZE: p.a = valid_uri(r, o); p.mask = r.chance(1, 3) ? 63u : r.below(64); p.owned = r.chance(1, 3); break;
+    case C_ADDBASE: { p.b = gen_abs_base(r); size_t e; if (!dfa_uriref(p.b, &e)) p.b = "a://h/p/q"; p.a = valid_uri(r, o); p.flag = (int)r.below(2); p.owned = r.chance(1, 4);
+        // rarely taken allocation sites: "/" reference under a base authority (empty segment for the cleared absolute flag), guard segment, empty references
+        if (r.chance(1, 4)) { static const char* refs[] = {"/", "/?q", "/.//x", ".//..//x", "///", "", "#f", "//h", "//1.2.3.4/", "//[::1]/a/b", "x:/..//y", "a/b/c/../../../..", "/../..", "./"}; p.a = refs[r.below(14)]; }
+        if (r.chance(1, 4)) { static const char* bases[] = {"a://h", "a://h/", "a://1.2.3.4:8", "a://[::1]/p/q", "a:b", "a:/", "a:", "a://u@h/x/y/z", "a:/b/c"}; p.b = bases[r.below(9)]; } } break;
+    case C_REMOVEBASE: { o.scheme = 1; p.a = valid_uri(r, o); p.b = r.coin() ? gen_abs_base(r) : mutate(r, p.a, 1); size_t e; if (!dfa_uriref(p.b, &e)) p.b = p.a; p.flag = (int)r.below(2); p.owned = r.chance(1, 4);
+        // allocation sites of the path walk: dotted base directories ('..' emission by depth), '.' for an empty source path, './' guards, domain root guard
+        if (r.chance(1, 3)) { static const char* src[] = {"s:", "s:#f", "s:b:c/d", "s://h/b:c", "s://h//x", "s://h/", "s://h", "s:/a/b/c/d", "s://h/a/b/", "s:a/b", "s://1.2.3.4/x", "s://[::1]/x"};
+                              static const char* bas[] = {"s:a", "s:a/b/c", "s:x/./y/z", "s://h/a/../x", "s://h/p/q/r", "s://h/./x", "s:?q", "s:/a/b/../../c/d", "s://h/a/b/c", "s://h", "s://1.2.3.4/y", "s://[::1]/y/z"};
+                              p.a = src[r.below(12)]; p.b = bas[r.below(12)]; } } break;
+    case C_NORMALIZE: p.a = valid_uri(r, o); p.mask = r.chance(1, 3) ? 63u : r.below(64); p.owned = r.chance(1, 3);
+        // shapes that need the owned '.' guard segment or the trailing empty segment after dot removal
+        if (r.chance(1, 3)) { static const char* sh[] = {"a/../b:c", "./b:c/d", "/a/..//b", "s:/x/..//y/z", "a/..//b", "//h/a/b/..", "/a/b/c/../..", "x/y/..", "s:a/b/../..", "HTTP://U%41@H%41/%41/./%2e/..?%41#%41", "//[V1.AB]/a/..", "a/b/c/d/e/../../../../.."}; p.a = sh[r.below(12)]; p.mask = r.coin() ? 63u : 8u; } break;
     case C_MAKEOWNER: p.a = valid_uri(r, o); break;
     case C_DISSECT: { int n = r.range(0, 6); for (int i = 0; i < n; i++) { if (i) p.a += '&'; p.a += gen_string(r, 6); if (r.coin()) { p.a += '='; p.a += gen_string(r, 6); } } for (auto& ch : p.a) if (ch == 0) ch = 'x'; p.flag = (int)r.below(2); p.mask = r.below(4); } break;
     default: { int n = r.range(1, 5); for (int i = 0; i < n; i++) { QItem it; it.key = gen_string(r, 6); it.hasValue = r.coin(); it.value = gen_string(r, 6); p.items.push_back(it); p.a += it.key + "=" + it.value + "&"; } p.flag = (int)r.below(4); } break;
